@@ -78,6 +78,8 @@ def generate(prng, tier, index):
     if index % 6 == 5:
         sc["variant"] = "faults"
         sc["abort_line"] = prng.randrange(0, 12)
+    if prng.random() < 0.15:
+        sc["phi_type"] = "np_float64"                     # the probability as a numpy scalar
     if prng.random() < 0.35 and g["nodes"]:
         # history on ONE graph object: between two calls the caller edits the graph IN PLACE (grows it, removes or
         # rewires an edge) - percolate, rewire, percolate again.  Every clause is re-evaluated against the edited graph.
@@ -157,7 +159,13 @@ def execute(sc, ctx):
             ctx.probe("graph_edited_in_place_between_calls")
         # decision budget scales with the input: one draw per edge is what the helper needs; 4x + slack is generous,
         # and exhausting it means "no result" (a fixed 10000 false-alarmed on graphs with more than 10000 edges)
-        st, S = ctx.call(src, bond_percolate, G, phi, budget=4 * G.number_of_edges() + 1000, label=f"percolate[{phi!r}]")
+        phi_arg = phi
+        if sc.get("phi_type") == "np_float64":
+            import numpy as np
+            phi_arg = np.float64(phi)
+        st, S = ctx.call(src, bond_percolate, G, phi_arg, budget=4 * G.number_of_edges() + 1000, label=f"percolate[{phi!r}]")
+        if st == "ok" and sc.get("phi_type") and not isinstance(S, float):
+            S = float(S)
         if st != "ok":
             ctx.violate(f"{P}.raised", f"bond_percolate(phi={phi!r}): {st} {describe_exc(S) if st == 'raised' else ''}")
             return
@@ -243,7 +251,11 @@ def star_scenarios(seed, tier):
             es = [[a, b] for a in range(n) for b in range(a + 1, n) if prng.random() < 0.25][:11]
             if es:
                 cat.append((f"random-{i}", es, n, prng.choice((0.2, 0.5, 0.8))))
-    return [(t, {"edges": es, "n": n, "phi": p}) for t, es, n, p in cat]
+    out = [(t, {"edges": es, "n": n, "phi": p}) for t, es, n, p in cat]
+    # the same law with the probability given as a numpy scalar (two catalogue entries)
+    out.append(("star-M4-phi0.3-numpy-float64", {"edges": _star(4), "n": 5, "phi": 0.3, "phi_type": "np_float64"}))
+    out.append(("two-disjoint-edges-phi0.5-numpy-float64", {"edges": [[0, 1], [2, 3]], "n": 4, "phi": 0.5, "phi_type": "np_float64"}))
+    return out
 
 
 def _graph(sc):
@@ -288,11 +300,15 @@ def dist_runs(sc, base_seed, tag, start, stop):
     cnt = Counter()
     digs = set()
     dec = 0
+    phi_arg = sc["phi"]
+    if sc.get("phi_type") == "np_float64":
+        import numpy as np
+        phi_arg = np.float64(phi_arg)
     for i in range(start, stop):
         src = Source("u:perc", _RealRandom(run_seed(base_seed, "C18:" + tag, i)), None)
         try:
             with simrandom.using(src):
-                S = bond_percolate(G, sc["phi"])
+                S = bond_percolate(G, phi_arg)
             cnt[round(S * n)] += 1
         except Exception as e:
             cnt[("raised", describe_exc(e))] += 1
